@@ -30,7 +30,7 @@ def CW : WalletCrypto where
   scrypt := fun _ _ => none
 
 def wifErr : HD.WifErr → String
-  | .b58 => "b58" | .short => "short" | .long => "long" | .checksum => "checksum"
+  | .b58 => "b58" | .short => "short" | .long => "long" | .checksum => "checksum" | .flag => "flag"
 
 def errClass : Addr.Err → String
   | .short => "short" | .segwit e => s!"segwit{e.code}" | .b58decode => "b58decode"
